@@ -160,7 +160,7 @@ type env struct {
 func run(c *vf.Ctx) {
 	c.Rule("keys: every format (ssh-rsa, ssh-dss, ecdsa-sha2-nistp256/384/521, ssh-ed25519, sk-ecdsa, sk-ed25519) with boundary shapes (RSA moduli of 1024..16384 bits incl. sizes with and without 00 pad byte, exponents 3..2^24-1; EC points kG and points with leading-zero coordinates; Ed25519 value classes; sk application strings) and certificates for every certified format x every CA signature format x 4 field variants. " +
 		"(1) per key: ParsePublicKey(blob) = reference fields, Marshal = specification blob byte for byte, NewPublicKey(crypto key).Marshal likewise, MarshalAuthorizedKey text, ParseAuthorizedKey/ParseKnownHosts of it, fingerprints = OpenSSH format over the OpenSSH blob (and = ssh-keygen -l / -E md5 when installed). " +
-		"(2) blob faults: for a representative blob of every format and certificate: every truncation, every single-byte substitution (255 values x every position), trailing bytes; ParsePublicKey must not panic, must reject what the reference grammar rejects, accept what it proves valid, and re-marshal accepted blobs consistently. " +
+		"(2) blob faults: for a representative blob of every format and certificate: every truncation, single-byte substitutions at every position (all 255 values for every byte of every length prefix incl. nested ones, {^b,b^01,b^80,00,ff} elsewhere; thorough: 255 values everywhere and every plain key), trailing bytes; ParsePublicKey must not panic, must reject what the reference grammar rejects, accept what it proves valid, and re-marshal accepted blobs consistently. " +
 		"(3) authorized_keys grammar: option lists of <=2 [thorough <=3] atoms over {flag, k=\"v\", quoted blank, quoted comma, escaped quote, literal tab in quotes, mid-word quote} + unterminated quotes x declared type {right, other format, certificate name, unknown, case-changed, suffixed, missing} x blob {valid, truncated, trailing byte, bad base64, stripped padding} x 4 key formats, and the blank/comment/leading/trailing layout product; multi-line files (all sequences of <=3 lines over 6 line kinds x LF/CRLF/no final newline); compared with sshd's procedure (reference) and with ssh-keygen -lf. " +
 		"(4) known_hosts grammar: marker x hosts x declared type x blob x comment x blanks, multi-line. (5) totality: every byte string of length <=2 [thorough <=3] into the three parsers; every single-byte deletion and substitution by {blank,tab,\",\\,comma,#,LF,@,=} of valid lines. non-trivial = distinct (key, check) resp. distinct line/fault")
 	c.Assume("crypto/sha256, crypto/md5, math/big, crypto/elliptic curve constants are correct; ssh-keygen (when present) is OpenSSH's")
@@ -181,6 +181,7 @@ func run(c *vf.Ctx) {
 	phase("round trips")
 	e.goBuiltCertificates()
 	phase("go-built certificates")
+	e.craftedBlobs()
 	e.blobFaults()
 	phase("blob faults")
 	e.authorizedKeysGrammar()
@@ -300,15 +301,15 @@ func (e *env) roundTrips() {
 		}
 	})
 
-	// ssh-keygen as additional oracle for the plain keys (synthetic certificates carry
-	// dummy CA signatures, which OpenSSH verifies on load; properly signed ones follow later)
+	// ssh-keygen as additional oracle for the plain keys and the certificates that carry a
+	// genuine CA signature (OpenSSH verifies the CA signature when it loads a certificate)
 	if !e.skg.present {
 		return
 	}
 	var lines []string
 	var idx []int
-	for i, k := range e.keys {
-		if recs[i] == nil {
+	for i, k := range all {
+		if recs[i] == nil || (k.ref.Cert != nil && !k.signed) {
 			continue
 		}
 		lines = append(lines, fmt.Sprintf("%s %s K%05d", k.ref.Type, kf.B64Encode(k.blob), i))
@@ -327,9 +328,10 @@ func (e *env) roundTrips() {
 		skipped := []string{}
 		for li, i := range idx {
 			_ = li
+			k := all[i]
 			r, ok := byComment[fmt.Sprintf("K%05d", i)]
 			if !ok {
-				skipped = append(skipped, e.keys[i].name)
+				skipped = append(skipped, k.name)
 				continue
 			}
 			c.Eval(1)
@@ -337,10 +339,24 @@ func (e *env) roundTrips() {
 			if md5 {
 				got = "MD5:" + recs[i].md5
 			}
-			if r.fp != got {
-				c.Violation("fingerprint differs from ssh-keygen -l ("+e.keys[i].ref.Type+")", map[string]any{"key": e.keys[i].name, "go": got, "ssh-keygen": r.fp})
+			if ct, isCert := recs[i].pk.(*ssh.Certificate); isCert {
+				// OpenSSH prints the certified key's fingerprint for a certificate
+				plain := ssh.FingerprintSHA256(ct.Key)
+				if md5 {
+					plain = "MD5:" + ssh.FingerprintLegacyMD5(ct.Key)
+				}
+				if plain != r.fp {
+					c.Violation("fingerprint of the certified key differs from ssh-keygen -l ("+k.ref.Type+")", map[string]any{"key": k.name, "go": plain, "ssh-keygen": r.fp})
+				} else if got != r.fp {
+					c.Violation(certFingerprintClass, map[string]any{"key": k.name, "go": got, "ssh-keygen": r.fp})
+				}
+			} else if r.fp != got {
+				c.Violation("fingerprint differs from ssh-keygen -l ("+k.ref.Type+")", map[string]any{"key": k.name, "go": got, "ssh-keygen": r.fp})
 			}
-			c.Nontrivial(fmt.Sprintf("skg-fp/%v/%s", md5, e.keys[i].name))
+			if k.ref.PlainType() == kf.RSA && r.bits != k.ref.N.BitLen() {
+				c.Violation("reference/ssh-keygen disagree on RSA size", map[string]any{"key": k.name, "ssh-keygen": r.bits, "reference": k.ref.N.BitLen()})
+			}
+			c.Nontrivial(fmt.Sprintf("skg-fp/%v/%s", md5, k.name))
 		}
 		if len(skipped) > 0 {
 			sort.Strings(skipped)
@@ -398,15 +414,20 @@ func (e *env) blobFaults() {
 	type job struct {
 		k        *testKey
 		from, to int // byte positions
+		lenByte  map[int]bool
 	}
 	var jobs []job
 	for _, k := range reps {
+		lb := map[int]bool{}
+		for _, o := range kf.LengthOffsets(k.ref) {
+			lb[o], lb[o+1], lb[o+2], lb[o+3] = true, true, true, true
+		}
 		for p := 0; p < len(k.blob); p += 16 {
 			to := p + 16
 			if to > len(k.blob) {
 				to = len(k.blob)
 			}
-			jobs = append(jobs, job{k, p, to})
+			jobs = append(jobs, job{k, p, to, lb})
 		}
 	}
 	c.ParallelFor(len(jobs), func(i int) {
@@ -423,8 +444,13 @@ func (e *env) blobFaults() {
 					n++
 				}
 			}
+			orig := j.k.blob[pos]
 			for v := 0; v < 256; v++ {
-				if byte(v) == j.k.blob[pos] {
+				if byte(v) == orig {
+					continue
+				}
+				// quick: all 255 values for the bytes of length prefixes, five values elsewhere
+				if !c.Thorough && !j.lenByte[pos] && byte(v) != ^orig && byte(v) != orig^1 && byte(v) != orig^0x80 && v != 0 && v != 0xff {
 					continue
 				}
 				m := append([]byte(nil), j.k.blob...)
@@ -436,6 +462,97 @@ func (e *env) blobFaults() {
 		}
 		c.Eval(n)
 	})
+}
+
+// craftedBlobs: multi-byte inconsistencies that single-byte faults cannot reach.
+func (e *env) craftedBlobs() {
+	c := e.c
+	byType := map[string]*testKey{}
+	for _, k := range e.keys {
+		if k.rep {
+			byType[k.ref.Type] = k
+		}
+	}
+	n := 0
+	try := func(seed *testKey, ref *kf.Key, what string) {
+		e.oneBlob(seed, kf.Encode(ref), "crafted: "+what)
+		c.Nontrivial("crafted/" + seed.name + "/" + what)
+		n++
+	}
+	ec := []string{kf.ECDSA256, kf.ECDSA384, kf.ECDSA521}
+	for _, a := range ec {
+		for _, b := range ec {
+			if a == b {
+				continue
+			}
+			// format name of a, curve identifier and/or point of b
+			ka, kb := byType[a], byType[b]
+			try(ka, &kf.Key{Type: a, Curve: kb.ref.Curve, Point: kb.ref.Point}, "curve id and point of "+b)
+			try(ka, &kf.Key{Type: a, Curve: kb.ref.Curve, Point: ka.ref.Point}, "curve id of "+b)
+			try(ka, &kf.Key{Type: a, Curve: ka.ref.Curve, Point: kb.ref.Point}, "point of "+b)
+		}
+		ka := byType[a]
+		size := (len(ka.ref.Point) - 1) / 2
+		try(ka, &kf.Key{Type: a, Curve: ka.ref.Curve, Point: []byte{0}}, "point at infinity")
+		comp := append([]byte{2 + ka.ref.Point[len(ka.ref.Point)-1]&1}, ka.ref.Point[1:1+size]...)
+		try(ka, &kf.Key{Type: a, Curve: ka.ref.Curve, Point: comp}, "compressed point")
+		try(ka, &kf.Key{Type: a, Curve: ka.ref.Curve, Point: append([]byte{4}, make([]byte, 2*size)...)}, "point (0,0)")
+		try(ka, &kf.Key{Type: a, Curve: ka.ref.Curve, Point: ka.ref.Point[:len(ka.ref.Point)-1]}, "point one byte short")
+		try(ka, &kf.Key{Type: a, Curve: ka.ref.Curve, Point: append(append([]byte(nil), ka.ref.Point...), 0)}, "point one byte long")
+		try(ka, &kf.Key{Type: a, Curve: strings.ToUpper(ka.ref.Curve), Point: ka.ref.Point}, "curve id in upper case")
+	}
+	sk := byType[kf.SKECDSA]
+	p384 := byType[kf.ECDSA384]
+	try(sk, &kf.Key{Type: kf.SKECDSA, Curve: "nistp384", Point: p384.ref.Point, App: "ssh:"}, "sk-ecdsa on nistp384")
+	try(sk, &kf.Key{Type: kf.SKECDSA, Curve: "nistp384", Point: sk.ref.Point, App: "ssh:"}, "sk-ecdsa with curve id nistp384")
+	ed := byType[kf.ED25519]
+	for _, l := range []int{0, 1, 31, 33, 64} {
+		try(ed, &kf.Key{Type: kf.ED25519, Pub: bytes.Repeat([]byte{7}, l)}, fmt.Sprintf("ed25519 key of %d bytes", l))
+		try(byType[kf.SKED25519], &kf.Key{Type: kf.SKED25519, Pub: bytes.Repeat([]byte{7}, l), App: "ssh:"}, fmt.Sprintf("sk-ed25519 key of %d bytes", l))
+	}
+	// certificates: a certificate as CA key; a plain format name with certificate fields; nested material of another format
+	var edCert *testKey
+	for _, k := range e.cert {
+		if k.rep && k.ref.PlainType() == kf.ED25519 {
+			edCert = k
+		}
+	}
+	if edCert != nil {
+		bad := *edCert.ref
+		cc := *bad.Cert
+		cc.SignatureKey = edCert.blob
+		bad.Cert = &cc
+		try(edCert, &bad, "signature key is itself a certificate")
+		bad2 := *edCert.ref
+		cc2 := *bad2.Cert
+		cc2.Signature = append(append([]byte(nil), cc2.Signature...), 0)
+		bad2.Cert = &cc2
+		try(edCert, &bad2, "signature with a trailing byte")
+		bad3 := *edCert.ref
+		cc3 := *bad3.Cert
+		cc3.CriticalOptions = []kf.Option{{Name: "b"}, {Name: "a"}}
+		bad3.Cert = &cc3
+		try(edCert, &bad3, "options out of lexical order")
+		bad4 := *edCert.ref
+		cc4 := *bad4.Cert
+		cc4.Extensions = []kf.Option{{Name: "a"}, {Name: "a"}}
+		bad4.Cert = &cc4
+		try(edCert, &bad4, "repeated extension name")
+		// the certificate body under the plain format name, and the plain key under the certificate name
+		m := append(sshwire.EncodeString([]byte(kf.ED25519)), edCert.blob[4+len(edCert.ref.Type):]...)
+		e.oneBlob(edCert, m, "crafted: certificate body under plain name")
+		m = append(sshwire.EncodeString([]byte(edCert.ref.Type)), ed.blob[4+len(kf.ED25519):]...)
+		e.oneBlob(edCert, m, "crafted: plain key under certificate name")
+		n += 2
+	}
+	// signature algorithm names are not key formats
+	rsa := byType[kf.RSA]
+	for _, name := range []string{"rsa-sha2-256", "rsa-sha2-512", "rsa-sha2-256-cert-v01@openssh.com", "ssh-rsa ", "", "ssh-ed25519\x00"} {
+		m := append(sshwire.EncodeString([]byte(name)), rsa.blob[4+len(kf.RSA):]...)
+		e.oneBlob(rsa, m, "crafted: format name "+fmt.Sprintf("%q", name))
+		n++
+	}
+	c.Eval(n)
 }
 
 func (e *env) oneBlob(seed *testKey, m []byte, kind string) {
@@ -548,29 +665,27 @@ func (e *env) cmpAuthLine(line, what string) (accepted bool) {
 	return true
 }
 
-// declaredTypePrecedesBlob: the base64 text of the returned key occurs in the line
-// and the blank-delimited token before it is the key's type name.
+// declaredTypePrecedesBlob: some blank-delimited token of some line decodes to the
+// returned key's blob and the token before it is the key's type name.
 func declaredTypePrecedesBlob(data string, pk ssh.PublicKey) bool {
-	b64 := kf.B64Encode(pk.Marshal())
+	blob := pk.Marshal()
 	for _, ln := range strings.FieldsFunc(data, func(r rune) bool { return r == '\n' || r == '\r' }) {
-		idx := strings.Index(ln, b64)
-		for idx >= 0 {
-			before := strings.TrimRight(ln[:idx], " \t")
-			if len(before) < len(ln[:idx]) { // at least one blank between type and blob
-				j := strings.LastIndexAny(before, " \t")
-				if before[j+1:] == pk.Type() {
-					return true
-				}
+		toks := strings.Fields(ln) // any white space: the parsers under test use bytes.Fields/TrimSpace
+		for i := 1; i < len(toks); i++ {
+			if toks[i-1] != pk.Type() {
+				continue
 			}
-			next := strings.Index(ln[idx+1:], b64)
-			if next < 0 {
-				break
+			if b, ok := lenientB64(toks[i]); ok && bytes.Equal(b, blob) {
+				return true
 			}
-			idx += 1 + next
 		}
 	}
 	return false
 }
+
+// normBlanks: ParseKnownHosts re-joins the fields of an entry with single blanks, so runs
+// of blanks inside a comment come back as one blank (not a property matter).
+func normBlanks(s string) string { return strings.Join(strings.Fields(s), " ") }
 
 func clipLine(s string) string {
 	if len(s) > 300 {
@@ -611,6 +726,7 @@ var optAtoms = []string{
 	`tunnel="0"`,
 	"environment=\"A=tab\there\"",
 	`x"mid word"y`,
+	`principals=",a,!,b\\,c,"`,
 }
 
 var optUnterminated = []string{
@@ -984,7 +1100,7 @@ func (e *env) cmpKnownHostsLine(line, what string) {
 		c.Violation("ParseKnownHosts hosts differ ("+what+")", det(strings.Join(hosts, "|")))
 	case !bytes.Equal(pk.Marshal(), hl.Blob):
 		c.Violation("ParseKnownHosts returns a different key ("+what+")", det(""))
-	case comment != hl.Comment:
+	case comment != normBlanks(hl.Comment):
 		c.Violation("ParseKnownHosts comment differs ("+what+")", det(comment))
 	case len(rest) != 0:
 		c.Violation("ParseKnownHosts returns a rest for single-line input", det(string(rest)))
@@ -994,43 +1110,72 @@ func (e *env) cmpKnownHostsLine(line, what string) {
 func (e *env) cmpKnownHostsFile(f string) {
 	c := e.c
 	lines, ends := kf.Lines(f)
-	// model: skip blank/comment lines and lines without any blank; the first other line decides
-	wantOK, wantEOF, off := false, true, len(f)
-	var hl kf.HostLine
+	// Blank and comment lines are skipped. The first remaining line decides when it is a
+	// well-formed entry. When it is malformed, ParseKnownHosts may report the error
+	// (what it does today) or go on to a later entry; it must not produce a key from it.
+	type cand struct {
+		hl  kf.HostLine
+		off int
+	}
+	var first *cand
+	firstMalformed := false
+	var later []cand
 	for i, ln := range lines {
 		h, ok, skip := kf.ParseKnownHostsLine(ln)
-		t := strings.Trim(ln, " \t")
-		if skip || !strings.ContainsAny(t, " \t") {
+		if skip {
 			continue
 		}
-		wantEOF = false
-		wantOK, hl, off = ok, h, ends[i]
-		break
+		if ok && len(strings.Fields(ln)) > 5 {
+			ok = false // more blank-separated fields than x/crypto reads: treated like a malformed entry here
+		}
+		if first == nil && !firstMalformed {
+			if ok {
+				first = &cand{h, ends[i]}
+			} else {
+				firstMalformed = true
+			}
+			continue
+		}
+		if ok {
+			later = append(later, cand{h, ends[i]})
+		}
 	}
 	var marker, comment string
 	var hosts []string
 	var pk ssh.PublicKey
 	var rest []byte
 	var err error
-	det := map[string]any{"file": clipLine(f), "model_ok": wantOK, "model_eof": wantEOF}
+	det := map[string]any{"file": clipLine(f)}
 	if pan, pv, _ := vf.Protect(func() { marker, hosts, pk, comment, rest, err = ssh.ParseKnownHosts([]byte(f)) }); pan {
 		det["panic"] = fmt.Sprint(pv)
 		c.Violation("ParseKnownHosts panics (multi-line)", det)
 		return
 	}
 	c.Eval(1)
-	if (err == nil) != wantOK {
-		det["err"] = fmt.Sprint(err)
-		c.Violation("ParseKnownHosts on multi-line input: accept/reject differs from first-entry rule", det)
-		return
+	same := func(x cand) bool {
+		return marker == x.hl.Marker && reflect.DeepEqual(hosts, x.hl.Hosts) && bytes.Equal(pk.Marshal(), x.hl.Blob) && comment == normBlanks(x.hl.Comment) && string(rest) == f[x.off:]
 	}
 	if err != nil {
+		if first != nil && !firstMalformed {
+			det["err"] = err.Error()
+			c.Violation("ParseKnownHosts on multi-line input fails although the first entry is well-formed", det)
+		}
 		return
 	}
-	if marker != hl.Marker || !reflect.DeepEqual(hosts, hl.Hosts) || !bytes.Equal(pk.Marshal(), hl.Blob) || comment != hl.Comment || string(rest) != f[off:] {
-		det["got"] = fmt.Sprint(marker, hosts, comment, len(rest))
-		c.Violation("ParseKnownHosts on multi-line input returns a different entry or rest", det)
+	if first != nil {
+		if !same(*first) {
+			det["got"] = fmt.Sprint(marker, hosts, comment, len(rest))
+			c.Violation("ParseKnownHosts on multi-line input returns a different entry or rest than the first entry", det)
+		}
+		return
 	}
+	for _, x := range later {
+		if same(x) {
+			return
+		}
+	}
+	det["got"] = fmt.Sprint(marker, hosts, comment, len(rest))
+	c.Violation("ParseKnownHosts on multi-line input returns an entry that no well-formed line holds", det)
 }
 
 // ---------------------------------------------------------------------------------
